@@ -56,18 +56,18 @@ func TestC39(t *testing.T) {
 	defer os.RemoveAll(dir)
 	h := &c39{m: m, dir: dir}
 
-	nA := m.N(416, 16640)
+	nA := m.N(208, 8320)
 	m.Cases("keygen2go", nA, h.keygenToGo)
-	nB := m.N(240, 9600)
+	nB := m.N(120, 4800)
 	m.Cases("go2keygen", nB, h.goToKeygen)
-	nC := m.N(3*len(c39Classes)*6, 3*len(c39Classes)*150)
+	nC := m.N(3*len(c39Classes)*4, 3*len(c39Classes)*120)
 	m.Cases("inconsistent", nC, h.inconsistent)
 
 	m.Gate("A_same_key", nA/4, "ssh-keygen-written keys (supported type and cipher) parsed and compared with the .pub key")
 	m.Gate("A_wrong_passphrase_judged", nA/8, "wrong passphrases tried on ssh-keygen-encrypted keys")
 	m.Gate("A_unsupported_cipher_clean_error", nA/8, "ssh-keygen -Z ciphers the package does not implement")
 	for _, tn := range []string{"ed25519", "ecdsa256", "ecdsa384", "ecdsa521", "rsa1024", "rsa2048", "rsa3072", "dsa"} {
-		m.Gate("A_type:"+tn, nA/32, "every ssh-keygen key type/size generated")
+		m.Gate("A_type:"+tn, nA/40, "every ssh-keygen key type/size generated")
 	}
 	m.Gate("B_keygen_accepts_same_key", nB/2, "Go-written files read back by ssh-keygen -y")
 	m.Gate("B_keygen_reencrypted_reparsed", nB/16, "Go-written files re-encrypted by ssh-keygen -p and parsed again")
